@@ -299,6 +299,17 @@ func (e *Engine) Load(name string) (*Template, error) {
 			}
 
 			LogError(ErrTemplateNotFound, errorDetails.String())
+			// A loader that failed for another reason than "not found" has not told us
+			// that the template is missing: report a load failure, not a missing template
+			var failures []error
+			for _, err := range loaderErrors {
+				if !errors.Is(err, ErrTemplateNotFound) {
+					failures = append(failures, err)
+				}
+			}
+			if len(failures) > 0 {
+				return nil, fmt.Errorf("template '%s' could not be loaded: %s%w", name, errorDetails.String(), silentErrors(failures))
+			}
 			// Keep every loader's own error reachable through errors.Is / errors.As
 			return nil, fmt.Errorf("%w: %s%w", ErrTemplateNotFound, errorDetails.String(), silentErrors(loaderErrors))
 		}
